@@ -6,6 +6,7 @@ package main
 
 import (
 	"fmt"
+	"sort"
 	"github.com/awalterschulze/gominikanren/example/peano"
 	"github.com/awalterschulze/gominikanren/micro"
 	"github.com/awalterschulze/gominikanren/mini"
@@ -156,4 +157,68 @@ func directedPeano(rep *Report) {
 			fmt.Sprintf("the %d kept answers reified as %s before and as %s after the later queries", len(kept), snap, now))
 	}
 	rep.hist("directed: peano sums of 40 and 300, answers kept across queries")
+}
+
+// directedMini: the list relations where no generated case goes.
+//   - mapo with a relation argument that only ends when its FIRST argument is known (snoc: f(in, out) = appendo(in, (!), out)),
+//     in the mode "x known, the other list of known length with unknown elements": the recursive relation ends at once with one
+//     answer, and so must the unrolled variants (stepped with a budget, nothing can hang);
+//   - searches that start at a variable counter just below 2^8, 2^16, 2^32 (State is an exported struct), with the query
+//     variables 0 and 1: every variable the search introduces is new, whatever its number.
+func directedMini(rep *Report) {
+	bang := ast.NewSymbol("!")
+	snoc := func(in, out *ast.SExpr) micro.Goal { return mini.AppendO(in, ast.NewList(bang), out) }
+	x := ast.NewList(ast.NewList(ast.NewInt(1)), ast.NewList(ast.NewInt(2), ast.NewInt(3)))
+	want := "((1 !) (2 3 !))"
+	for name, mk := range map[string]func(l *ast.SExpr) micro.Goal{
+		"MapO(snoc, x, l)":               func(l *ast.SExpr) micro.Goal { return mini.MapO(snoc, x, l) },
+		"MapOUnrolled(l)(snoc, x)":       func(l *ast.SExpr) micro.Goal { return mini.MapOUnrolled(l)(snoc, x) },
+		"MapODoubleUnrolled(snoc, l)(x)": func(l *ast.SExpr) micro.Goal { return mini.MapODoubleUnrolled(snoc, l)(x) },
+	} {
+		a, b := micro.Var(1), micro.Var(2)
+		l := ast.NewList(a, b)
+		g := micro.Conj(mk(l), micro.EqualO(micro.Var(0), l))
+		tr := observeTrace(g(&micro.State{Substitutions: nil, Counter: 3}), 4000)
+		got := []string{}
+		for _, st := range tr.States {
+			got = append(got, micro.VerifWalkStar(micro.Var(0), st.Substitutions).String())
+		}
+		if !tr.Closed || len(got) != 1 || got[0] != want {
+			rep.violate(-1, "mapo-mode-x-known", name+" with x = ((1) (2 3)), l = (?1 ?2), snoc(in, out) = appendo(in, (!), out)",
+				fmt.Sprintf("search ended within 4000 steps: %v; answers %v; want the one answer %s and the end of the stream", tr.Closed, got, want))
+		}
+	}
+	rep.hist("directed: mapo with a relation argument that needs its first argument")
+	abc := ast.NewList(ast.NewSymbol("a"), ast.NewSymbol("b"), ast.NewSymbol("c"))
+	// (searches from small counters come first: whatever the process remembers about variables 0.. is in place by then)
+	for _, c0 := range []uint64{0, 1, 2} {
+		observeTrace(mini.AppendO(micro.Var(0), micro.Var(1), abc)(&micro.State{Substitutions: nil, Counter: c0}), 3000)
+	}
+	for _, top := range []uint64{1 << 8, 1 << 16, 1 << 32} {
+		for _, back := range []uint64{1, 2, 5} {
+			st := &micro.State{Substitutions: nil, Counter: top - back}
+			q := ast.NewList(micro.Var(0), micro.Var(1))
+			for name, g := range map[string]micro.Goal{
+				"appendo(?0, ?1, (a b c))": mini.AppendO(micro.Var(0), micro.Var(1), abc),
+				"membero(?0, (a b c)), ?1 == ?0": micro.Conj(mini.MemberO(micro.Var(0), abc), micro.EqualO(micro.Var(1), micro.Var(0))),
+				"mapo(==, ?0, (a b c)), ?1 == ()": micro.Conj(mini.MapO(func(u, v *ast.SExpr) micro.Goal { return micro.EqualO(u, v) }, micro.Var(0), abc), micro.EqualO(micro.Var(1), nil)),
+			} {
+				tr := observeTrace(g(st), 3000)
+				got := []string{}
+				for _, s := range tr.States {
+					got = append(got, micro.VerifWalkStar(q, s.Substitutions).String())
+				}
+				sort.Strings(got)
+				wantN := map[byte]int{'a': 4, 'm': 3}[name[0]]
+				if name[1] == 'a' {
+					wantN = 1 // mapo
+				}
+				if !tr.Closed || len(got) != wantN {
+					rep.violate(-1, "fresh-variables-at-large-counters", fmt.Sprintf("%s started on the state {no bindings, counter %d}", name, top-back),
+						fmt.Sprintf("search ended: %v; %d answer(s) %v, want %d", tr.Closed, len(got), got, wantN))
+				}
+			}
+		}
+	}
+	rep.hist("directed: searches started at counters just below 2^8, 2^16, 2^32")
 }
